@@ -7,6 +7,7 @@
                      handlers and then the third party's local function.
    checks_uninstall : _call_existing_tracer skips the third-party function while existing_tracer is None          (from tracer.py)
    wraps_foreign    : frames of files the tracer does not accept get a composed local function too               (from tracer.py)
+   rebinds_local    : a third party's local function that returns ANOTHER local function is followed               (from tracer.py)
    No proofs in this file. *)
 From Coq Require Import List NArith Bool Arith.
 Import ListNotations.
@@ -18,15 +19,17 @@ Inductive tag : Set :=
   | TSet (g : option nat).                     (* user code: sys.settrace(third party g) / sys.settrace(None) *)
 Inductive node : Set := Nd (t : tag) (cs : list node).
 
-Record third : Set := { tp_accepts : N -> bool; tp_self : bool }.
-Inductive tpf : Set := FGlob (i : nat) | FLoc (i : nat).          (* the global / local function of third party i *)
-Inductive who : Set := WH | WG (i : nat) | WL (i : nat).
+Record third : Set := { tp_accepts : N -> bool; tp_self : bool;
+                       tp_switch : bool }.     (* its local function hands over to a second local function at its first event *)
+Inductive tpf : Set := FGlob (i : nat) | FLoc (i : nat) | FLoc2 (i : nat).   (* the global / local / second local function of third party i *)
+Inductive who : Set := WH | WG (i : nat) | WL (i : nat) | WL2 (i : nat).
 Definition logent : Set := (who * sevt * N)%type.
 
 Section Hist.
 Variable tps : nat -> third.
 Variable sub : sevt -> bool.
 Variables checks_uninstall wraps_foreign : bool.
+Variable rebinds_local : bool.       (* the frame's composed tracer follows when the third party's local function returns another one *)
 
 (* calling a third-party function: what it hands back, what it logs *)
 Definition call_tp (f : tpf) (e : sevt) (name : N) : option tpf * list logent :=
@@ -36,7 +39,8 @@ Definition call_tp (f : tpf) (e : sevt) (name : N) : option tpf * list logent :=
       | SCall => ((if tp_accepts (tps i) name then Some (if tp_self (tps i) then FGlob i else FLoc i) else None), [(WG i, e, name)])
       | _ => (Some (FGlob i), [(WG i, e, name)])
       end
-  | FLoc i => (Some (FLoc i), [(WL i, e, name)])
+  | FLoc i => (Some (if tp_switch (tps i) then FLoc2 i else FLoc i), [(WL i, e, name)])
+  | FLoc2 i => (Some (FLoc2 i), [(WL2 i, e, name)])
   end.
 Definition keep (old new : option tpf) : option tpf := match new with Some _ => new | None => old end.
 
@@ -86,7 +90,7 @@ Definition py_event (ex : option nat) (acc : bool) (name : N) (ft : pyf) (e : se
   | PComp l =>
       let mylog := if acc && sub e then [(WH, e, name)] else [] in
       let '(r, lg) := call_existing ex l e name in
-      (PComp (keep l r), mylog ++ lg)          (* a non-call event: the composed tracer keeps itself as the local function *)
+      (PComp (if rebinds_local then keep l r else l), mylog ++ lg)   (* a non-call event: the composed tracer keeps itself as the local function *)
   | PRaw f => let '(r, lg) := call_tp f e name in (match r with Some f' => PRaw f' | None => PRaw f end, lg)   (* the interpreter calls it directly *)
   end.
 
